@@ -48,6 +48,10 @@ AllowedHere(p, e) ==
       [] p = "C09" -> /\ e.ev # "Timeout"
                       /\ e.ev = "Final" => open = {}          \* every invoked operation returned
                       /\ e.ev = "Burst" => e.completed = e.ops
+                      \* one maintenance run is bounded (MAX_SYNC_REPEATS rounds of at most a queue's
+                      \* length each), whatever the other threads do meanwhile: the writers it makes
+                      \* room for complete at most `budget` inserts before it returns to its own call
+                      /\ e.ev = "MaintRun" => e.max_others <= e.budget
                       /\ e.ev = "Settled" => (e.rlen = 0 /\ e.wlen = 0)   \* maintenance keeps running
       [] p = "C04" /\ e.ev \in {"Overshoot", "Settled"} ->
             \* between maintenance runs: at most the write queue plus one entry per inserting thread
@@ -78,7 +82,7 @@ NonTrivial(p, e) ==
     CASE p = "C02" -> (e.ev = "Ret" /\ e.r # None /\ \E q \in ps.gets : q.id = e.id) \/ e.ev = "Final"
       [] p = "C05" -> NT_C05c(cfg, ps, e) /\ e.r # None
       [] p = "C06" -> NT_C06c(cfg, ps, e) /\ e.r # None
-      [] p = "C09" -> e.ev \in {"Ret", "Final", "Timeout", "Burst", "Settled"}
+      [] p = "C09" -> e.ev \in {"Ret", "Final", "Timeout", "Burst", "Settled", "MaintRun"}
       [] p = "C04" /\ e.ev \in {"Overshoot", "Settled"} -> e.cap # None
       [] p = "C03" -> e.ev \in {"Refill", "Probe", "Final"}
       [] p = "C16" -> e.ev \in {"IterRun", "Final"}
